@@ -129,12 +129,13 @@ def K(prefix, **kw):
 _PT = dict(extra=["-Z", "stubbing", "-Z", "unstable-options", "--cbmc-args", "--max-field-sensitivity-array-size", "512"],
            own_labels_only=True, jobs=14, mem_gb=16, harness_timeout=1200,
            stubs=["S-zero: PageTable::zero -> whole-table assignment (the real zero() is verified in C08); native replays run the real one",
-                  "S-ptr (ptr_*_nr only): VirtAddr::as_ptr -> 4-level hardware walk of the pool for the accessed virtual address (software MMU)"],
+                  "S-ptr (ptr_*_nr only): VirtAddr::as_ptr -> 4-level hardware walk of the pool for the accessed virtual address (software MMU)",
+                  "S-ptr-offset (pt_off_*_nr only): VirtAddr::as_ptr -> the pool table whose physical address is (address - OFFSET_BASE), anything else is a stray access"],
            trusted_base=["rustc->Kani->CBMC", "CaDiCaL", "overlay O1-O4", "hw_walk oracle (harness/src/structures/paging/mapper/verif_mapper/mod.rs, from SDM vol.3A 4.5)"],
            assumptions=["regime R2- (DESIGN.md 3.5): virtual addresses, which path slots are links, the flags of existing parent entries, the parent_table_flags argument and the allocator failure position are CONCRETE per harness instance (boundary menu); symbolic: contents of the entry that ends the path, all neighbouring entries, stale bytes of free frames, the frame and leaf-flags arguments",
                         "pre-states satisfy the well-formedness invariant WF (tree-shaped hierarchy of pool frames, leaf/parent entries zero or PRESENT, huge leaves size-aligned, leaf frames outside the pool)",
                         "leaf flags are drawn from bits 0-11 and 52-63 (bit 12 = PAT of huge leaves is excluded, see known finding F3)",
-                        "MappedPageTable with a pool frame mapping (natively replayable) and RecursivePageTable through the S-ptr stub = software MMU over the pool (CBMC-only, `_nr`); OffsetPageTable = MappedPageTable + `offset + frame` (decided for all values in c09_offset_*)"])
+                        "MappedPageTable with a pool frame mapping (natively replayable) and RecursivePageTable through the S-ptr stub = software MMU over the pool (CBMC-only, `_nr`); OffsetPageTable (every trait method is an explicit delegation) through the S-ptr-offset stub with one concrete physical-memory offset (CBMC-only, `_nr`); its pointer computation `offset + frame` is decided for all values in c09_offset_*"])
 
 def PT(prop, own, **kw):
     d = K(own, **_PT)
@@ -147,7 +148,7 @@ def PT(prop, own, **kw):
     return d
 
 PROPS = {
-    "C01": PT("C01", "c01", bounds="one mapper call (map_to_with_table_flags / unmap / update_flags / translate, translate_addr, translate_page; 3 page sizes) from every pre-state of 179 (quick) / about 690 (thorough) concrete-skeleton instances x all symbolic contents, for MappedPageTable (122/484 instances) and RecursivePageTable (57/202); pool of 8 table frames; histories only by induction on WF over the instance family (no multi-call sequences, not for all addresses); clean_up preservation via one C10 instance"),
+    "C01": PT("C01", "c01", bounds="one mapper call (map_to_with_table_flags / map_to / identity_map / unmap / update_flags / set_flags_p4,p3,p2_entry / translate, translate_addr, translate_page; 3 page sizes) from every pre-state of about 290 (quick) / 1500 (thorough) concrete-skeleton instances x all symbolic contents, for MappedPageTable, RecursivePageTable and OffsetPageTable; 2-4 call sequences (map-unmap-remap, huge page shadows small page, map-update-unmap, map-unmap-clean_up); pool of 8 table frames; histories beyond that only by induction on WF over the instance family (not for all addresses); clean_up preservation via the C10 instances"),
     "C02": PT("C02", "c02", bounds="as C01; every allocator failure position (0..3) is its own instance"),
     "C10": dict(K("c10", **_PT), own_labels_only=True, jobs=6, mem_gb=24, harness_timeout=2400, harness_timeout_thorough=5400, total_timeout=9000,
                 bounds="MappedPageTable: 4 (quick) / 15 (thorough), RecursivePageTable: 1 / 4 concrete skeleton x range instances (<= 2 populated entries per table, <= 7 tables), symbolic leaf contents decide which tables are empty; loops fully unrolled (unwind 514)",
